@@ -1,5 +1,6 @@
 (* fmt_driver.ml — model and oracle side of the format cluster (C08)
    case lines:   fmt <format-hex> <op>*        op  = p:<arg>  |  a:<arg>,<arg>,...  |  a:.  |  q:.  (ask for the text, ignore it)
+                 loc <any of the other case lines>     the same under a global locale with digit grouping (state-neutral argument kinds only)
                  lit <format-hex> <op>*        the same through the "..."_nf literal with that text (a fixed table in the C++ driver)
                  excf <format-hex> <op>*       raise("pre:", formatter, "!") and what()
                  os <width> <fill-hex> <l|r|i> <format-hex> <op>*      operator<< into a stream holding "pre:" with that pending width/fill/adjustment, then "!"
@@ -27,7 +28,10 @@ let parse_manip (w : string) : manip =
   | _ when has "setfill" && String.length w = 9 -> (match str_of_hex (tail w 7) with [c] -> MSetfill c | _ -> failwith "manip")
   | _ -> failwith "manip"
 let parse_bool w = match w with "0" -> false | "1" -> true | _ -> failwith "bool"
-let parse_arg (w : string) : arg =
+(* loc cases run under a global locale with digit grouping: every argument is given its text under that locale (render_loc,
+   through localize) and the locale-independent model is run on those; only the state-neutral kinds are in scope there *)
+let loc_mode = ref false
+let parse_arg0 (w : string) : arg =
   if w = "" then failwith "arg" else
   match w.[0] with
   | 's' | 'n' | 'r' -> AStr (str_of_hex (tail w 1))   (* const lvalue / non-const lvalue variable / temporary: the same VALUE *)
@@ -43,6 +47,9 @@ let parse_arg (w : string) : arg =
   | 't' -> ABoolAlpha (parse_bool (tail w 1))
   | 'm' -> AManip (parse_manip (tail w 1))
   | _ -> failwith "arg"
+let parse_arg (w : string) : arg =
+  let a = parse_arg0 w in
+  if !loc_mode then (if stateless a then localize a else failwith "loc scope") else a
 let parse_op (w : string) : op =
   if String.length w < 3 || w.[1] <> ':' then failwith "op" else
   match w.[0] with
@@ -91,7 +98,7 @@ let obs_excf = function
   | Ok s -> "W " ^ hex_of_str (pre @ s @ sentinel)
   | Raise _ -> "W-ARITY"
 let in_scope_exc args = List.for_all stateless args
-let model ws =
+let model0 ws =
   try (match ws with
   | ("fmt" | "lit") :: f :: ops -> obs_res (format_chain (str_of_hex f) (parse_ops ops))
   | "excf" :: f :: ops -> obs_excf (format_chain (str_of_hex f) (parse_ops ops))
@@ -108,7 +115,7 @@ let model ws =
 (* the oracle judges an observation by the SPEC (split-based formula on the flattened arguments, each
    rendered on its own; concatenation for the message), not by the model's loop *)
 let spec_obs (f, ops) = spec_format f (List.map render (flatten_ops ops))
-let oracle case obs =
+let oracle0 case obs =
   match case, words obs with
   | "excf" :: f :: ops, o -> String.concat " " o = obs_excf (spec_obs (str_of_hex f, parse_ops ops))
   | ("fmt" | "lit") :: f :: ops, o ->
@@ -136,4 +143,7 @@ let oracle case obs =
       let args = List.map parse_arg args in
       in_scope_exc args && str_of_hex x = spec_message (List.map render args)
   | _ -> false
+let with_loc f = loc_mode := true; let r = (try f () with e -> loc_mode := false; raise e) in loc_mode := false; r
+let model = function "loc" :: rest -> with_loc (fun () -> model0 rest) | ws -> model0 ws
+let oracle case obs = match case with "loc" :: rest -> with_loc (fun () -> oracle0 rest obs) | _ -> oracle0 case obs
 let () = run_driver model oracle
